@@ -18,6 +18,7 @@ import (
 	"sync/atomic"
 	"syscall"
 	"testing"
+	"time"
 
 	"github.com/mdlayher/corerad/internal/verifh"
 )
@@ -95,6 +96,76 @@ func TestVerifState(t *testing.T) {
 
 	// ---- per-interface semantics in a private network namespace (root only): the forwarding state of an
 	// interface is ITS sysctl, whatever conf/all says, in both directions
+	// ---- a read that starts after a flip sees the flip, also while an earlier read of the same file is still in
+	// progress (RA builds of send workers, scrapes and API requests overlap in real time): the real State through
+	// its public methods, the sysctl file replaced by a FIFO that plays a slow read of the old value
+	for _, which := range []string{"forwarding", "autoconf"} {
+		id := "state-linearizable-" + which
+		if !out.Wants(id) {
+			continue
+		}
+		c := verifh.Case{ID: id, Input: map[string]any{"kind": "sysctl-linearizable", "sysctl": which}, Tags: []string{"sysctl-linearizable"}}
+		dir := t.TempDir()
+		file := filepath.Join(dir, which)
+		iface := "../../../../../../../.." + dir // sysctl() joins and cleans the path: the reads go to our directory
+		read := func(st State) (bool, error) {
+			if which == "forwarding" {
+				return st.IPv6Forwarding(iface)
+			}
+			return st.IPv6Autoconf(iface)
+		}
+		st := NewState()
+		if err := syscall.Mkfifo(file, 0o600); err != nil {
+			c.Tags = append(c.Tags, "fifo:unavailable")
+			out.Emit(c)
+			continue
+		}
+		type res struct {
+			v   bool
+			err error
+		}
+		aC, bC := make(chan res, 1), make(chan res, 1)
+		go func() { v, err := read(st); aC <- res{v, err} }()
+		wf, err := os.OpenFile(file, os.O_WRONLY, 0) // returns once reader A has the FIFO open
+		if err != nil {
+			c.Tags = append(c.Tags, "fifo:unavailable")
+			out.Emit(c)
+			continue
+		}
+		_, _ = wf.Write([]byte("1\n")) // A has the old value but not yet the end of the file
+		time.Sleep(20 * time.Millisecond)
+		// the flip
+		_ = os.WriteFile(file+".new", []byte("0\n"), 0o600)
+		_ = os.Rename(file+".new", file)
+		go func() { v, err := read(NewState()); bC <- res{v, err} }() // B starts after the flip
+		select {
+		case b := <-bC:
+			if b.err != nil {
+				c.Tags = append(c.Tags, "fifo:unavailable")
+				c.Observed = b.err.Error()
+			} else if b.v {
+				c.ImplViolation = "a read of " + which + " that began after the value was switched to 0 returned 1"
+			}
+		case <-time.After(3 * time.Second):
+			c.ImplViolation = "a read of " + which + " that began after the flip did not complete while an earlier read of the same file was still in progress"
+		}
+		wf.Close()
+		select {
+		case <-aC:
+		case <-time.After(3 * time.Second):
+		}
+		if c.ImplViolation != "" {
+			select {
+			case b := <-bC:
+				if b.v {
+					c.ImplViolation += "; it was handed the earlier read's result: 1, although the value was 0 from before its start"
+				}
+			case <-time.After(time.Second):
+			}
+		}
+		out.Emit(c)
+	}
+
 	if out.Wants("state-netns") {
 		c := verifh.Case{ID: "state-netns", Input: map[string]any{"kind": "state-netns"}, Tags: []string{"state-netns"}}
 		res := make(chan string, 1)
